@@ -23,9 +23,13 @@ def main():
         p = subprocess.run(r['replay_cmd'], shell=True, env=dict(os.environ, CARGO_NET_OFFLINE='true'))
         sys.exit(1 if p.returncode == 1 else 0)
     wf = os.path.join(VERIF, 'replay')
+    if r['property'] in ('C03', 'C05', 'C06', 'C09', 'C12'):
+        print('--- witness finder: request catalogue against real servers on loopback (replay crate) ---')
+        p = subprocess.run(['cargo', 'run', '--offline', '-q', '--release', '--bin', 'listener', '--', r['property']], cwd=wf, env=dict(os.environ, CARGO_NET_OFFLINE='true'))
+        sys.exit(1 if p.returncode == 1 else 0)
     if r['property'] in ('C01', 'C02', 'C04', 'C07', 'C08', 'C15', 'C16', 'C18'):
         print('--- witness finder: scripted-peer scenarios against the real Worker (replay crate) ---')
-        p = subprocess.run(['cargo', 'run', '--offline', '-q', '--bin', 'scenarios', '--', r['property']], cwd=wf,
+        p = subprocess.run(['cargo', 'run', '--offline', '-q', '--release', '--bin', 'scenarios', '--', r['property']], cwd=wf,
                            env=dict(os.environ, CARGO_NET_OFFLINE='true'))
         sys.exit(1 if p.returncode == 1 else 0)
     sys.exit(0)
